@@ -160,6 +160,8 @@ inductive Via
   | bound                       -- `callee(...)` on a bound function              (bindFunctionObject: passthrough, no scope)
   | implicit                    -- getter / toString / valueOf invoked by the runtime: no call expression is evaluated
   | nativeOnly                  -- `callee(...)` on a native function which is itself the activation (it raises)
+  | evalDirect                  -- direct `eval("…")`: builtinGlobalEval with call.eval: no scope is entered; the eval code runs in the caller's scope
+  | evalIndirect                -- `callee("…")` where callee evaluates to eval: native scope "eval", then enterGlobalScope for the eval code
 deriving Repr, DecidableEq
 
 /-- statements already completed in the calling activation before the call site -/
@@ -174,6 +176,7 @@ structure Level where
   name : String          -- the function's own name (`fn.node.name`, "" for anonymous; native: `fn.name`)
   off : Int              -- idx of the call site's callee expression
   pre : List Pre := []
+  file : Nat := 0        -- the file the activation's code was parsed from (`fn.node.file`; for eval code: the eval source)
 deriving Repr, DecidableEq
 
 def setTopOffset (o : Int) : Stack → Stack
@@ -194,18 +197,22 @@ def nodeFrame (name : String) (file : Nat) : Frame := { callee := name, file := 
 /-- type_function.go:177 frame of a native function activation -/
 def nativeFrame (name : String) : Frame := { callee := name, native := true, file := none }
 
-/-- the scope chain after entering one more activation (`file` = the file the script function was parsed from) -/
-def enterLevel (file : Nat) (lv : Level) (s : Stack) : Stack :=
+/-- the scope chain after entering one more activation -/
+def enterLevel (lv : Level) (s : Stack) : Stack :=
   let s := runPre lv.pre s
   match lv.via with
-  | .direct | .construct | .bound => nodeFrame lv.name file :: setTopOffset (atvOf lv.form lv.off) s
-  | .viaNative n => nodeFrame lv.name file :: nativeFrame n :: setTopOffset (atvOf lv.form lv.off) s
-  | .implicit => nodeFrame lv.name file :: s
+  | .direct | .construct | .bound => nodeFrame lv.name lv.file :: setTopOffset (atvOf lv.form lv.off) s
+  | .viaNative n => nodeFrame lv.name lv.file :: nativeFrame n :: setTopOffset (atvOf lv.form lv.off) s
+  | .implicit => nodeFrame lv.name lv.file :: s
   | .nativeOnly => nativeFrame lv.name :: setTopOffset (atvOf lv.form lv.off) s
+  -- builtin.go:22-28 + cmpl_evaluate.go:14: no scope; `rt.scope.frame.file = node.file` hits the caller's frame
+  | .evalDirect => setTopFile lv.file (setTopOffset (atvOf lv.form lv.off) s)
+  -- type_function.go:177 (native frame "eval"), builtin.go:25 enterGlobalScope (fresh frame), cmpl_evaluate.go:14
+  | .evalIndirect => { callee := "", file := some lv.file } :: nativeFrame "eval" :: setTopOffset (atvOf lv.form lv.off) s
 
-def enterLevels (file : Nat) : List Level → Stack → Stack
+def enterLevels : List Level → Stack → Stack
   | [], s => s
-  | lv :: ls, s => enterLevels file ls (enterLevel file lv s)
+  | lv :: ls, s => enterLevels ls (enterLevel lv s)
 
 /-- how the error is raised inside the innermost activation -/
 inductive Raise
@@ -234,7 +241,7 @@ deriving Repr, DecidableEq
 
 /-- frames of the error as the code computes them (file 0 = the program) -/
 def traceFrames (limit : Int) (sc : Scenario) : List Frame :=
-  raiseTrace limit sc.pre sc.raise (enterLevels 0 sc.levels (globalStack 0))
+  raiseTrace limit sc.pre sc.raise (enterLevels sc.levels (globalStack 0))
 
 def trace (files : List FileEnt) (limit : Int) (sc : Scenario) : List FrameOut :=
   (traceFrames limit sc).map (location files)
